@@ -178,6 +178,23 @@ async def _run_bridge_sequence(nports: int, arrivals: List[Tuple[int, str]], fai
                 tx.close()
                 return "0 NOT-RUN(the well-known ports are in use on this machine right now)", []
             raise
+        # somebody else asks for the same ports with SO_REUSEPORT set: a bridge that holds its ports exclusively (as it must, or
+        # broadcasts would be shared out between the two) makes that fail
+        thieves = []
+        for p in ports:
+            t = socket.socket(socket.AF_INET, socket.SOCK_DGRAM)
+            try:
+                t.setsockopt(socket.SOL_SOCKET, socket.SO_REUSEPORT, 1)
+                t.bind(("0.0.0.0", p))
+                thieves.append(t)
+            except OSError:
+                t.close()
+        if thieves:
+            for t in thieves:
+                t.close()
+            await bridge.stop()
+            tx.close()
+            return f"0 PORT-SHARED(another socket could bind {len(thieves)} of the bridge's ports while it was running)", []
         if restart:                 # a bridge that has been stopped and started again is a running bridge like any other
             await bridge.stop()
             await asyncio.sleep(0)
